@@ -22,7 +22,7 @@ SPEC = os.path.join(vlib.SPECS, "text")
 CONF = {
     "C30": dict(mode="droplet", mc=("MCDroplet", "MCDroplet.cfg"), oracle=("DropletRecords", "DropletRecords.cfg"), count={"quick": 12000, "thorough": 600000},
                 mcconst="Places=2 MaxValue=1299 MaxLen=5 alphabet {0,1,3,9,.,-,+,e}"),
-    "C15": dict(mode="base58", mc=("MCBase58", "MCBase58.cfg"), oracle=("Base58Records", "Base58Records.cfg"), count={"quick": 4000, "thorough": 150000},
+    "C15": dict(mode="base58", mc=("MCBase58", "MCBase58.cfg"), oracle=("Base58Records", "Base58Records.cfg"), count={"quick": 4000, "thorough": 60000},
                 mcconst="byte strings of length <= 3 over {0,1,57,58,59,127,128,255}; texts of length <= 3 over {1,2,A,z,0,I,l,0xC8}"),
 }
 
